@@ -145,3 +145,24 @@ func TestC09(t *testing.T) {
 		Col.Case(p.Hash(), p.Compact, h.Labels["c09-nontrivial"] > 0, h.Labels, excluded)
 	})
 }
+
+func TestC14(t *testing.T) {
+	Col.SetProp("C14", "case = key set (1-600 keys from four families: tiny alphabet incl. the empty key, numeric, long shared prefix + short suffix, random bytes 0-30) spread over 1-3 persisted segments with overwrites and deletions, optionally fully compacted; the same directory (a copy per option set) is opened with default options (index off: 10 MB threshold) and with 2-6 generated {SegmentKeysIndexMaxBytes in 8..1000/default/off, SegmentKeysIndexMinKeyBytes in 1, total-1, total, total+1, default}; probes = every present key, its neighbours, generated strings, below the first, above the last; for every probe Get, and the ranges [p,nil), [nil,p), [p,q) (full sequence up to 8 entries, else first three + last + count) must equal the reference model under every option set. Non-trivial: a case in which, by the documented formula (estimated from public inputs), an index with >= 2 entries is in use for some segment under some option set. Distinct = distinct case hash.")
+	rapid.Check(t, func(rt *rapid.T) {
+		p := genC14(rt)
+		st := RunC14(rt, p)
+		labels := map[string]int{}
+		if st.indexed > 0 {
+			labels["index-in-use(estimated)"] = 1
+		}
+		Col.AddExtra("option_sets_read", st.optionSets)
+		Col.AddExtra("probe_reads", st.probes)
+		Col.Case(p.Hash(), func() string {
+			s := string(p.Extra)
+			if len(s) > 1200 {
+				s = s[:1200] + "..."
+			}
+			return s
+		}, st.indexed > 0, labels, 0)
+	})
+}
